@@ -7,7 +7,9 @@ TS_GHOST = {'TokenStore': {'g_off': 'IARR', 'g_view': 'IARR', 'g_vlen': 'INT', '
 # paths that are dead on the reference tree for a stated reason; any OTHER unreachable path makes the obligations on it vacuous and is reported
 EXPECTED_UNREACHABLE = {
     'l0.structure:TokenStore._update_block#SMOKE-path3',       # the re-index guard after rebuild(): indexes are always fresh since fix c7e0fd9
-    'l1.tokens:Position.__iadd__#SMOKE-path0',                 # `return NotImplemented`: the contract restricts `other` to Position
+    'l1.tokens:Position.__iadd__#SMOKE-path0',
+    'l2.base:RawModel.detach#SMOKE-path0',                     # `return []` for a falsy store: the contract covers tree models, whose store holds >= 1 token
+    'l2.base:RawModel.detach#SMOKE-path2',                     # `if tokens:` false: same reason                 # `return NotImplemented`: the contract restricts `other` to Position
 }
 
 UNITS = [
@@ -18,10 +20,10 @@ UNITS = [
     Unit('l0.structure', ['token_store.py'], 'l0_token_store.py',
          [('TokenStore', '_update_block_indexes'), ('_StoreBlock', 'rebuild'), ('TokenStore', '_merge_blocks'), ('TokenStore', '_splice'), ('TokenStore', '_update_block'),
           ('_StoreBlock', 'from_tokens'), (None, '_build_blocks'), ('TokenStore', '_split_block'), ('TokenStore', '__init__'), ('TokenStore', 'from_tokens')],
-         props=['C07', 'C19'], typevars={'_T': 'Token'}, ghost=TS_GHOST),
+         props=['C07', 'C19', 'C03', 'C05', 'C06', 'C11'], typevars={'_T': 'Token'}, ghost=TS_GHOST),
     Unit('l0.mutators', ['token_store.py'], 'l0_token_store.py',
          [('TokenStore', 'splice'), ('TokenStore', 'insert_after'), ('TokenStore', 'insert_before'), ('TokenStore', 'replace'), ('TokenStore', 'remove')],
-         props=['C07', 'C19', 'C03'], typevars={'_T': 'Token'}, ghost=TS_GHOST),
+         props=['C07', 'C19', 'C03', 'C05', 'C06'], typevars={'_T': 'Token'}, ghost=TS_GHOST),
     Unit('l0.caches', ['token_store.py'], 'l0_token_store.py', [('_StoreBlock', 'rebuild'), ('_StoreBlock', 'from_tokens')], lemmas=['fold_frame'], aspect='cache',
          props=['C08'], typevars={'_T': 'Token'}, ghost=TS_GHOST),
     Unit('l1.tokens', ['token_store.py', 'models/base.py', 'models/internal/base_token_models.py', 'models/block_comment.py'], 'l1_tokens.py',
@@ -48,5 +50,10 @@ UNITS = [
          [('optional_left_field', '_remove_node'), ('optional_right_field', '_remove_node'), ('optional_left_field', '_create_node'), ('optional_right_field', '_create_node')],
          props=['C03', 'C05', 'C06'], stubs=['l2_abstract.py'], typevars={'_M': 'RawModel', '_V': 'RawModel'}, builtins=['copy.deepcopy'],
          note='token store seen through its abstract interface (view, per-token store/pos): the interface contracts restate the proved L0 contracts under pos(t) = off[block.index]+index; this restatement (bridge) is not machine-checked, it is monitored at run time by the store driver'),
+    Unit('l2.base', ['models/base.py'], 'l2_base.py',
+         [('RawModel', 'detach'), ('RawModel', 'tokens')],
+         props=['C05', 'C19', 'C03', 'C04'], stubs=['l2_store_only.py'], typevars={'_T': 'RawTokenModel'},
+         ghost={'RawModel': {'g_first': 'RawTokenModel', 'g_last': 'RawTokenModel', 'g_ts': 'TokenStore'}, 'RawTokenModel': {'g_store': 'TokenStore', 'g_pos': 'INT'}},
+         note='token store seen through its abstract interface (bridge to L0 not machine-checked); first_token/last_token/token_store are virtual: contract on the base class, tied to the slots by the L4 template obligations'),
     TemplateUnit('l4.templates', props=['C20', 'C11', 'C05', 'C15', 'C01', 'C03', 'C14']),
 ]
